@@ -8,6 +8,7 @@ import Gv.Proofs.StatsMutAA
 import Gv.Proofs.StatsMutAAEq
 import Gv.Proofs.StatsProfile
 import Gv.Proofs.StatsUniqueProf
+import Gv.Proofs.FrameStats
 /-!
 # C14 — column statistics and consensus match definitions and are deterministic
 
@@ -848,5 +849,82 @@ example : Spec.mutationListVsRef 1 [65, 82, 45, 78, 84, 84, 71] [65, 67, 45, 45,
 example : numMutationsVsRef 1 [65, 82, 45, 78, 84, 84, 71] [65, 67, 45, 45, 84, 45, 65] = some 3 := by decide
 example : (Spec.ntBases 114).isSome = true ∧ (Spec.ntBases 89).isSome = true ∧
     Spec.compatible (Spec.basesOf 114) (Spec.basesOf 89) = false := by decide
+
+/-! ### Frameshifts / Stops (`Gv.Model.FrameStats`, the statistics `goalign phasent` logs)
+
+Error / panic conditions and shape exactly as in Go, and soundness of the reported coordinates.  That the loops
+compute the documented meaning (`Gv.Spec.FrameStats`: the longest dephased part between two in-phase points; the
+first stop codon of the residues of the row) is checked by the oracle on every answer of the implementation, not
+proved. -/
+
+/-- `Frameshifts` panics (index out of range on `a.seqs[0]`) exactly on an alignment without sequences -/
+theorem frameshifts_panic_iff (rows : CRows) (flag : Bool) : frameshifts rows flag = none ↔ rows = [] := by
+  cases rows <;> simp [frameshifts]
+
+/-- one entry per row, the first one the zero value -/
+theorem frameshifts_shape (rows : CRows) (flag : Bool) (l : List (Nat × Nat)) (h : frameshifts rows flag = some l) :
+    l.length = rows.length ∧ l.head? = some (0, 0) := by
+  cases rows with
+  | nil => simp [frameshifts] at h
+  | cons r t =>
+    simp only [frameshifts, Option.some.injEq] at h
+    subst h
+    simp
+
+private theorem zip_res_le (ref seq : Seq) :
+    ((ref.zip seq).filter fun p => p.2 != GAP).length ≤ (seq.filter (· != GAP)).length := by
+  induction ref generalizing seq with
+  | nil => simp
+  | cons a t ih =>
+    cases seq with
+    | nil => simp
+    | cons c u =>
+      have := ih u
+      simp only [List.zip_cons_cons, List.filter_cons]
+      by_cases hc : (c != GAP) = true
+      · simp only [hc, ↓reduceIte, List.length_cons]; omega
+      · simp only [hc, Bool.false_eq_true, ↓reduceIte]; exact this
+
+/-- soundness of the reported coordinates: every entry is the zero value or an interval `[Start, End)` of MORE than
+one residue, and `End` is at most the number of residues of the row (coordinates of the un-gapped row) -/
+theorem frameshiftsRow_bounds (flag : Bool) (ref seq : Seq) :
+    ((frameshiftsRow flag ref seq).1 = 0 ∧ (frameshiftsRow flag ref seq).2 = 0 ∨
+      (frameshiftsRow flag ref seq).1 + 1 < (frameshiftsRow flag ref seq).2) ∧
+    (frameshiftsRow flag ref seq).2 ≤ (seq.filter (· != GAP)).length := by
+  have h := Gv.Proofs.FrameStats.fsLoop_inv flag (ref.zip seq) ⟨0, 0, 0, false, 0, 0⟩
+    ⟨Nat.le_refl _, Nat.le_refl _, Or.inl ⟨rfl, rfl⟩⟩
+  obtain ⟨⟨_, h2, h3⟩, h4⟩ := h
+  have h5 := zip_res_le ref seq
+  simp only [frameshiftsRow]
+  refine ⟨h3, ?_⟩
+  simp only [Nat.zero_add] at h4
+  exact Nat.le_trans h2 (Nat.le_trans h4 h5)
+
+/-- `Stops` answers an error exactly for a genetic code other than 0, 1, 2 - whatever the alignment -/
+theorem stops_err_iff (rows : CRows) (flag : Bool) (code : Int) :
+    stops rows flag code = .err ↔ ¬ (code = 0 ∨ code = 1 ∨ code = 2) := by
+  unfold stops geneticCode
+  by_cases h0 : code = 0
+  · subst h0; cases rows <;> simp [Gen.c_GENETIC_CODE_STANDARD]
+  · by_cases h1 : code = 1
+    · subst h1; cases rows <;> simp [Gen.c_GENETIC_CODE_STANDARD, Gen.c_GENETIC_CODE_VETEBRATE_MITO]
+    · by_cases h2 : code = 2
+      · subst h2
+        cases rows <;> simp [Gen.c_GENETIC_CODE_STANDARD, Gen.c_GENETIC_CODE_VETEBRATE_MITO, Gen.c_GENETIC_CODE_INVETEBRATE_MITO]
+      · simp [Gen.c_GENETIC_CODE_STANDARD, Gen.c_GENETIC_CODE_VETEBRATE_MITO, Gen.c_GENETIC_CODE_INVETEBRATE_MITO, h0, h1, h2]
+
+/-- `Stops` panics exactly for a known genetic code on an alignment without sequences (the code is looked up first) -/
+theorem stops_panic_iff (rows : CRows) (flag : Bool) (code : Int) :
+    stops rows flag code = .panic ↔ (code = 0 ∨ code = 1 ∨ code = 2) ∧ rows = [] := by
+  unfold stops geneticCode
+  by_cases h0 : code = 0
+  · subst h0; cases rows <;> simp [Gen.c_GENETIC_CODE_STANDARD]
+  · by_cases h1 : code = 1
+    · subst h1; cases rows <;> simp [Gen.c_GENETIC_CODE_STANDARD, Gen.c_GENETIC_CODE_VETEBRATE_MITO]
+    · by_cases h2 : code = 2
+      · subst h2
+        cases rows <;> simp [Gen.c_GENETIC_CODE_STANDARD, Gen.c_GENETIC_CODE_VETEBRATE_MITO, Gen.c_GENETIC_CODE_INVETEBRATE_MITO]
+      · simp [Gen.c_GENETIC_CODE_STANDARD, Gen.c_GENETIC_CODE_VETEBRATE_MITO, Gen.c_GENETIC_CODE_INVETEBRATE_MITO, h0, h1, h2]
+
 
 end Gv.Props.C14
